@@ -479,7 +479,11 @@ def run(tier):
                      "HLLC are judged against the physical flux and against their own mirror image only",
                      "round-off clause scaled, per component, by the magnitude of the physical flux parts and of (|u|+c)|U|"],
         mc_runs=[("MC_Fluxes", "MC_Fluxes.cfg" if tier == "quick" else "MC_Fluxes_f.cfg", 16)],
-        groups=[("Judge_Flux", recs)], prefixes=["C02"], sig_of=sig_of)
+        groups=[("Judge_Flux", recs)], prefixes=["C02"], sig_of=sig_of,
+        symbolic=("Apa_Fluxes", ["InvHllConsistent", "InvHllUpwind", "InvHllMirror", "InvRusanov", "InvCentered", "InvConvection", "InvBurgers"],
+                  "model level, beyond the grid: Apa_Fluxes.tla proves with Apalache/Z3 consistency, mirror symmetry and upwinding of "
+                  "the two-wave HLL form, the Rusanov and centered forms (physical fluxes, conserved quantities and wave speeds "
+                  "FREE: any system, any gamma / g) and of the convection and Burgers upwind fluxes, for ALL values"))
 
 
 if __name__ == "__main__":
